@@ -378,10 +378,12 @@ class VSeq:
     """list of symbolic length: element i is elem(i) (a Python callable producing a value), length is an int expr.
     Elements are produced by a factory so that objects in lists can be records."""
 
-    def __init__(self, length, elem, name='seq'):
+    def __init__(self, length, elem, name='seq', isinstance_of=(), contains=None):
         self.length = length
         self.elem = elem
         self.name = name
+        self.isinstance_of = tuple(isinstance_of)  # real classes this list-like value is an instance of
+        self.contains = contains  # optional hook: item -> formula
 
 
 class VMap:
